@@ -51,6 +51,7 @@ type Bank struct {
 }
 
 type bankOp struct {
+	KeepSupply bool // a havoc of balances that leaves every supply as it was
 	Havoc  bool
 	Addr   *smt.Term // nil for supply-only ops
 	Coins  Val
@@ -287,7 +288,7 @@ func (ex *Exec) supply(w *World, d *smt.Term) *smt.Term {
 	r := smt.App(b.Base+"!supply", smt.Int, d)
 	for _, op := range b.Ops {
 		switch {
-		case op.Havoc && op.All:
+		case op.Havoc && op.All && !op.KeepSupply:
 			r = smt.App(op.Fresh+"!supply", smt.Int, d)
 		case op.Supply:
 			a := ex.amtOf(op.Coins, d)
@@ -307,6 +308,12 @@ func (w *World) bankDelta(addr *smt.Term, coins Val, sign int, supply bool) {
 func (ex *Exec) bankHavocAddr(w *World, addr *smt.Term) {
 	ex.fresh++
 	w.Bank.Ops = append(w.Bank.Ops, bankOp{Havoc: true, Addr: addr, Fresh: fmt.Sprintf("%sbank!h%d", ex.worldBase, ex.fresh)})
+}
+
+// bankHavocBalances: any transfers may have happened, nothing was minted or burnt.
+func (ex *Exec) bankHavocBalances(w *World) {
+	ex.fresh++
+	w.Bank.Ops = append(w.Bank.Ops, bankOp{Havoc: true, All: true, KeepSupply: true, Fresh: fmt.Sprintf("%sbank!h%d", ex.worldBase, ex.fresh)})
 }
 
 func (ex *Exec) bankHavocAll(w *World) {
